@@ -192,6 +192,17 @@ def run(ctx):
             for tail in tails:
                 k += 1
                 one(ctx, pre + "</" + e + ">" + tail, "dom" if k % 2 else "etree", None, "skeleton-stress", scripting=(k % 5 == 0))
+    # characters that are white space for Unicode but not for HTML (and references to them), where white space is kept
+    # directly under html / the document: after </head>, after </frameset>, after </html>, before <html>
+    odd_ws = ["&nbsp;", "&#xA0;", "&emsp;", "&#x2003;", "&#11;", "&#x85;", "&#x1c;", "\u00a0", "\u2003", "\x0b", "\u3000", "&thinsp;", "&#x2028;"]
+    spots = ["<!DOCTYPE html><html><head><title>t</title></head>%s<body><p>x</p></body></html>", "<head></head>%s<p>x", "<html><head></head>%s",
+             "<frameset><frame></frameset>%s", "<frameset></frameset></html>%s", "%s<html><head>", "<!DOCTYPE html>%s", "</body>%s", "</html>%s<p>",
+             "<head>%s</head>", "<html>%s<head>", "<table>%s<tr>", "<select>%s</select>", "<colgroup>%s<col>"]
+    k = 0
+    for w_ in odd_ws:
+        for sp in spots:
+            k += 1
+            one(ctx, sp % w_, "dom" if k % 2 else "etree", None, "odd-whitespace", scripting=(k % 3 == 0))
     docs = ["<!DOCTYPE html><table><tr><td><b><p>x</b></p><select><option>a</select></table><svg><foreignObject><p>y</svg>",
             "<frameset><frame></frameset><noframes>x</noframes><!-- c -->", "<a><table><a>x</table></a><b><i></b></i>"]
     for d in docs:
